@@ -213,6 +213,38 @@ def run(ctx):
                     break
         if len(samples) < 5 and sat and ssrc not in BOUNDARY and "dict" in ssrc:
             samples.append({"schema": ssrc, "modes": modes})
+    # histories of short-lived schemas through the module-level generator behind fake(): what is
+    # generated for a schema may not depend on the schemas generated from before (state kept per
+    # schema object - e.g. keyed on id() - is reused by the next object at the same address)
+    eph = []
+    for ssrc, s in schemas:
+        if not ("substitute(" in ssrc or " | " in ssrc or " + " in ssrc or "make_required(" in ssrc or " % " in ssrc):
+            try:
+                if find_conforming(r, s)[0] and not classify(r, s, cache):
+                    eph.append(ssrc)
+            except Exception:  # noqa
+                pass
+    dist["ephemeral_runs"] = 0
+    seed = r.randrange(1 << 30)
+    _random.seed(seed)
+    history = []
+    for _ in range(ctx.scale(800, 8000) if eph else 0):
+        ssrc = r.choice(eph)
+        history.append(ssrc)
+        dist["ephemeral_runs"] += 1
+        bad = None
+        try:
+            v = fake(gen.build(ssrc))                 # the schema object dies right after the call
+            errs = ssuite_errors(gen.build(ssrc), v)
+            if errs:
+                bad = f"fake returned {gen.vsrc(v)}, rejected: {errs[:3]}"
+        except Exception as e:  # noqa
+            bad = f"fake raised {type(e).__name__}: {e}"
+        if bad:
+            ctx.violation("generated data does not validate after a history of other schemas: " + bad[:120],
+                          {"kind": "history", "schemas": history[-12:], "seed": seed, "observed": bad,
+                           "expected": "a value accepted by validate(schema, value), whatever was generated before"})
+            break
     bad = common.eval_cases(ctx.workdir, "c01", terms, "gencase", "gencase_ok",
                             extra_requires="Require Import D42.PyRandom D42.RegexGen D42.Generate D42.CaseGen.")
     for i in bad[:10]:
@@ -245,6 +277,16 @@ def ssuite_errors(s, v):
 
 def replay(data):
     from d42 import fake, validate
+    if "schemas" in data:
+        _random.seed(data.get("seed", 0))
+        for src in data["schemas"]:
+            try:
+                v = fake(gen.build(src))
+                print(src, "->", gen.vsrc(v), validate(gen.build(src), v).get_errors())
+            except Exception as e:  # noqa
+                print(src, "-> raised", repr(e))
+        print("expected:", data.get("expected"))
+        return 0
     s = eval(data["schema"], dict(gen.NS, substitute=__import__("d42").substitute,
                                   make_required=__import__("d42.utils", fromlist=["x"]).make_required))
     if "tape" in data:
